@@ -15,7 +15,7 @@ package toerror
 //@ func (g *gen) genFuncFor(deriveFuncName string, ftyp *types.Signature) (err error)
 //@ param deriveFuncName: classes=Ident
 //@ param ftyp: nresults=1,2,3 lastbool
-//@ name-variants
+// parameter names are always present here: the registering Add renames blank and empty names (derive.RenameBlankIdentifier)
 //@ emits: decls
 //@ o-closure: cr0 cr1 cr2
 //@ o-closure-ensures: when nparams(ftyp)=0 [one-call-arguments-in-place] traceLen() == 1 && called(0, f)
